@@ -113,7 +113,7 @@ class _NamedArrayBase(abc.ABC):
         return f"{self.name}({kwargs})"
 
     def __iter__(self):
-        return iter(self.data)
+        return iter(self.data.flat)
 
     @classmethod
     def from_data(cls, data):
